@@ -163,6 +163,37 @@ def opCopy : J.Op := fun j => do
                  ("shared", J.ofBool shared),
                  ("src_after", ofObj (StoreCopy.view h'' ho)), ("copy_after", ofObj (StoreCopy.view h'' ho'))]
 
+/-- `c16.copy_hist`: one live object, a history of copies (`{"t":"copy","deep":b}`) and in-place changes
+    (`{"t":"poke","who":i,"k":field}`: every element of the buffer behind field `k` of the source (`who = -1`) or of
+    the `i`-th copy is changed by `bump`).  Answer: per copy the views of copy and source at that moment, and the
+    views of everything at the end. -/
+def opCopyHist : J.Op := fun j => do
+  let o ← objOfAny (← J.field j "obj" pure)
+  let ops ← J.field j "ops" (J.list pure)
+  let (h, ho) := StoreCopy.allocObj [] o
+  let mut s : StoreCopy.CState := ⟨h, ho, []⟩
+  let mut taken : List Json := []
+  for op in ops do
+    let t ← J.field op "t" J.str
+    if t == "copy" then
+      let deep ← J.field op "deep" J.bool
+      let before := s
+      s := StoreCopy.stepC s (.copy deep)
+      let c := s.copies.getLast?.getD []
+      let fresh := (StoreCopy.refs c).all (fun a =>
+        !(StoreCopy.refs before.src).contains a && before.copies.all (fun c' => !(StoreCopy.refs c').contains a))
+      taken := taken ++ [J.obj [("copy", ofObj (StoreCopy.view s.heap c)), ("src", ofObj (StoreCopy.view s.heap s.src)),
+                                ("fresh", J.ofBool fresh)]]
+    else
+      let who ← J.field op "who" J.int
+      let k ← J.field op "k" J.str
+      let tgt : Option StoreCopy.HObj := if who < 0 then some s.src else s.copies[who.toNat]?
+      match tgt.bind (StoreCopy.fieldRef · k) with
+      | some a => s := StoreCopy.stepC s (.write a (StoreCopy.bump (StoreCopy.deref s.heap a)))
+      | none => pure ()
+  pure <| J.obj [("taken", .arr taken.toArray), ("final_src", ofObj (StoreCopy.view s.heap s.src)),
+                 ("final_copies", J.ofList (fun c => ofObj (StoreCopy.view s.heap c)) s.copies)]
+
 /-- CHROM as text (a JSON number stands for its decimal spelling), ID possibly null -/
 def vraw (j : Json) : J.R StoreVcf.RawRec := do
   let chrom ← match j.getObjVal? "chrom" with
@@ -395,7 +426,7 @@ def opDeepcopyGraph : J.Op := fun j => do
 
 def ops : List (String × J.Op) :=
   [("c16.h5", opH5), ("c16.spec_obj", opSpecObj), ("c16.construct", opConstruct),
-   ("c16.parse_path", opParsePath), ("c16.valid", opValid), ("c16.copy", opCopy),
+   ("c16.parse_path", opParsePath), ("c16.valid", opValid), ("c16.copy", opCopy), ("c16.copy_hist", opCopyHist),
    ("c16.vcf", opVcf), ("c16.spec_vcf", opSpecVcf), ("c16.frame_bv", opFrameBV),
    ("c16.frame_gmap", opFrameGMap), ("c16.frame_cmat", opFrameCMat), ("c16.frame_egmap", opFrameEMap),
    ("c16.frame_model", opFrameModel), ("c16.frame_vmat", opFrameVMat), ("c16.frame_vmatk", opFrameVMatK),
